@@ -78,20 +78,9 @@ def run(repo, rep):
 
     # ---------------------------------------------------------------- C13.c
     n = 0
-    pts = repo.func('prettyprinter', 'python_to_sdocs')
-    ctors = [c for c in ast.walk(pts.node) if isinstance(c, ast.Call) and call_name(c) == ci.name]
-    n += 1
-    rep.check(len(ctors) == 1, 'C13.c', 'python_to_sdocs:one-context', pts.where, 'one top-level context',
-              'python_to_sdocs builds %d contexts' % len(ctors))
-    init = ci.methods.get('__init__')
-    for c in ctors:
-        kw = {k.arg: k.value for k in c.keywords}
-        n += 1
-        v = kw.get(field)
-        fresh = v is None or src(v) in ('set()', 'None')
-        rep.check(fresh, 'C13.c', 'python_to_sdocs:fresh-visited', '%s:%d' % (pts.module.relpath, c.lineno),
-                  'visited set created per call', 'the top-level context is given %s=%s: not a set created for this call'
-                  % (field, src(v) if v is not None else ''), nontrivial=True)
+    from . import entrymodel
+    n += entrymodel.report(repo, rep, 'C13.c', lambda k: k in ('ctx:visited-fresh-per-call', 'context-is-a-PrettyContext', 'given:single-path'),
+                           'two top-level calls must not share a visited set')
     n += ctxmodel.report(repo, rep, 'C13.c', lambda k: k in ('ctor:fresh-visited', 'ctor:stores:visited'),
                          'every top-level call must get its own visited set')
     for name, vals in m.assigns.items():
